@@ -1150,3 +1150,5 @@ B('C09', 'stand-in chosen against the two bodies only', 'logic/matcher.py',
   "                for s in inst.values():\n                    var_names.extend(v.name for v in s.get_vars())\n", "", 'C09.N13', 'avoid-list-includes-instantiation')
 B('C20', 'separator appended to whatever line comes last', 'imperative/com.py',
   "            for line in reversed(lines):\n                if line['ty'] == 'com':\n                    line['str'] += ';'\n                    return\n            raise AssertionError", "            lines[-1]['str'] += ';'", 'C20.P9', 'add_str')
+B('C11', 'datatype constructor recorded without comparing names and argument types', 'server/items.py',
+  "                if len(constr['args']) != len(argT):\n                    raise ItemException(\"Datatype %s: %s has %d arguments, %d names are given\" % (\n                        self.name, constr['name'], len(argT), len(constr['args'])))\n", "", 'C11.D11', 'names-match-argument-types')
